@@ -5,7 +5,11 @@
 //! re-exported here.  This module itself holds the state shared by the seams.
 
 pub use crate::dns_parser::verif_hooks as parser;
+pub use crate::service_daemon::verif_hooks as daemon;
 pub use crate::service_info::verif_hooks as info;
+
+/// State of the simulation seams (interfaces, gate, ingress/egress, jitter).
+pub mod sim;
 
 /// Virtual clock: when set, `current_time_millis()` returns it instead of the system time.
 pub mod clock {
